@@ -202,6 +202,14 @@ func Classify(r *Response, cfg Config) Class {
 	if strings.ContainsAny(r.Version, " \r\n") || strings.ContainsAny(r.Status, " \r\n") || hasCRLF(r.Reason) {
 		ambiguous = true
 	}
+	if r.Prefix != "" {
+		// The response starts with something that is not a status line: an
+		// empty line, or blanks glued to the version token.
+		if strings.Trim(r.Prefix, "\r\n \t") != "" {
+			ambiguous = true
+		}
+		c.Fail = append(c.Fail, "status-line:prefix")
+	}
 	add(ClassifyVersion(r.Version))
 	if r.Version != "HTTP/1.1" && ClassifyVersion(r.Version) == "" {
 		c.Notes = append(c.Notes, "version:1.x")
@@ -413,7 +421,7 @@ func Classify(r *Response, cfg Config) Class {
 	// head still force a failure.
 	hard := false
 	for _, f := range c.Fail {
-		if strings.HasPrefix(f, "status:") || strings.HasPrefix(f, "version:") || f == "truncated-head" {
+		if strings.HasPrefix(f, "status:") || strings.HasPrefix(f, "version:") || f == "truncated-head" || f == "status-line:prefix" {
 			hard = true
 		}
 	}
